@@ -632,7 +632,7 @@ theorem accClose_sum (n : NetSt) (now : Int) (a : String) (va : SockV) (ac : Acc
 theorem accListen_sum (n : NetSt) (a : String) (qs : Int) (va : SockV) (ac : AccState)
     (hv : n.sv a = some va) (hac : va.acc = some ac) :
     (n.accListen a qs).1 = n ∨
-    (va.isOpen = true ∧ ∃ s0, n.tcp? a = some s0 ∧
+    (va.isOpen = true ∧ va.bound.isDefault = false ∧ ∃ s0, n.tcp? a = some s0 ∧
       (n.accListen a qs).1 = n.setTcp a { s0 with acc := some { ac with queueLimit := if qs = -1 then 20 else qs } }) := by
   obtain ⟨s0, hs0, hv0⟩ := sv_some hv
   have h1 : s0.acc = some ac := by rw [← hac, ← hv0]; rfl
@@ -645,7 +645,7 @@ theorem accListen_sum (n : NetSt) (a : String) (qs : Int) (va : SockV) (ac : Acc
     simp only [Bool.not_true, Bool.false_eq_true, if_false]
     cases hb : s0.bound.isDefault with
     | true => left; simp
-    | false => right; exact ⟨by rw [← h2, ho], s0, rfl, by simp [ho]⟩
+    | false => right; exact ⟨by rw [← h2, ho], by rw [← hb, ← hv0]; rfl, s0, rfl, by simp [ho]⟩
 
 theorem accIncoming_syn (n : NetSt) (now : Int) (a : String) (pk : Pkt) (c : Nat) (s0 : TcpSock) (ac : AccState)
     (hs : n.tcp? a = some s0) (hac : s0.acc = some ac) (hty : pk.ty = .syn) (hc : pk.chan = some c) :
@@ -826,6 +826,287 @@ theorem connDial_sum (n : NetSt) (name : String) (target : Ep) (h : Nat) (e0 : L
       rw [internalConnect_refused n name target hl]
       simp only [hs, List.append_nil]
       exact ⟨hl, trivial, trivial⟩
+
+/-! ### `bind`, `cancel` (socket and acceptor), an error packet at the acceptor -/
+
+theorem lookup_append_none {α β : Type} [BEq α] [LawfulBEq α] (l : List (α × β)) (k : α) (v : β)
+    (h : l.lookup k = none) : (l ++ [(k, v)]).lookup k = some v := by
+  induction l with
+  | nil => simp [List.lookup]
+  | cons y ys ih =>
+    obtain ⟨k₀, v₀⟩ := y
+    simp only [List.cons_append, List.lookup_cons] at h ⊢
+    cases hk : (k == k₀)
+    · simp only [hk] at h; exact ih h
+    · simp only [hk] at h; cases h
+
+theorem tcpBind_sum (n : NetSt) (name : String) (ep : Ep) (s0 : TcpSock) (hs0 : n.tcp? name = some s0) :
+    let r := n.tcpBind name ep
+    r.1.cfg = n.cfg ∧ r.1.fwds = n.fwds ∧ r.1.chans = n.chans ∧
+    ((r.1.reg.tcp = n.reg.tcp ∧ (∀ o, r.1.tcp? o = n.tcp? o))
+     ∨ (s0.isOpen = true ∧ s0.bound.isDefault = true ∧ r.2 = .ok
+          ∧ ∃ ep2, n.reg.tcp.lookup ep2 = none ∧ r.1.reg.tcp = n.reg.tcp ++ [(ep2, name)]
+          ∧ ∀ o, r.1.tcp? o = if o = name then some { s0 with bound := ep2 } else n.tcp? o)) := by
+  unfold NetSt.tcpBind
+  simp only [hs0]
+  cases ho : s0.isOpen with
+  | false => exact ⟨rfl, rfl, rfl, Or.inl ⟨rfl, fun _ => rfl⟩⟩
+  | true =>
+    simp only [Bool.not_true, Bool.false_eq_true, if_false]
+    split
+    · exact ⟨rfl, rfl, rfl, Or.inl ⟨rfl, fun _ => rfl⟩⟩
+    · cases hb : s0.bound.isDefault with
+      | false => exact ⟨rfl, rfl, rfl, Or.inl ⟨rfl, fun _ => rfl⟩⟩
+      | true =>
+        simp only [Bool.not_true, Bool.false_eq_true, if_false]
+        cases hio : ioResolve (n.cfg.ipsOf s0.node) ep with
+        | error e => exact ⟨rfl, rfl, rfl, Or.inl ⟨rfl, fun _ => rfl⟩⟩
+        | ok ep1 =>
+          simp only
+          obtain ⟨b1, b2⟩ := simBind_sum n.reg.tcp n.reg.nextPort name ep1
+          generalize simBind n.reg.tcp n.reg.nextPort name ep1 = sb at *
+          obtain ⟨tbl, np, r⟩ := sb
+          simp only at b1 b2 ⊢
+          cases r with
+          | error e =>
+            have := b1 e rfl; subst this
+            exact ⟨rfl, rfl, rfl, Or.inl ⟨rfl, fun _ => rfl⟩⟩
+          | ok ep2 =>
+            obtain ⟨c1, c2⟩ := b2 ep2 rfl
+            subst c2
+            exact ⟨rfl, rfl, rfl, Or.inr ⟨trivial, trivial, rfl, ep2, c1, rfl, fun o => by rw [tcp?_setTcp]; rfl⟩⟩
+
+theorem tcpCancel_eq (n : NetSt) (o : String) (s0 : TcpSock) (hs0 : n.tcp? o = some s0) :
+    n.tcpCancel o = (n.setTcp o s0.cancel.1, s0.cancel.2) := by
+  unfold NetSt.tcpCancel; simp only [hs0]
+
+theorem accCancel_eq (n : NetSt) (a : String) (s0 : TcpSock) (hs0 : n.tcp? a = some s0) :
+    n.accCancel a = (n.setTcp a s0.abortAccept.1, s0.abortAccept.2) := by
+  unfold NetSt.accCancel; simp only [hs0]
+
+theorem accIncoming_err (n : NetSt) (now : Int) (a : String) (pk : Pkt) (s0 : TcpSock)
+    (hs : n.tcp? a = some s0) (hty : pk.ty = .err) :
+    n.accIncoming now a pk = (n.setTcp a s0.abortAccept.1, s0.abortAccept.2) := by
+  unfold NetSt.accIncoming
+  simp only [hs, hty]
+
+/-- a pending connect is completed with operation_aborted by `cancel` (hence by `close`) -/
+theorem cancel_posts_aborted (s : TcpSock) (h : Nat) (hc : s.connectH = some h) :
+    NEff.post { h := h, ec := .aborted } ∈ s.cancel.2 ∧ s.cancel.1.connectH = none := by
+  unfold TcpSock.cancel
+  have h1 : s.abortRecv.1.abortSend.1.connectH = some h := by
+    unfold TcpSock.abortSend TcpSock.abortRecv; exact hc
+  simp only [h1]
+  exact ⟨by simp, trivial⟩
+
+
+/-! ### the ephemeral-port counter stays positive, bound endpoints are never `0.0.0.0:0` -/
+
+theorem probePort_ge (tbl : List (Ep × String)) (addr : String) :
+    ∀ fuel port p, probePort tbl addr fuel port = some p → port ≤ p := by
+  intro fuel
+  induction fuel with
+  | zero => intro port p h; simp [probePort] at h
+  | succ f ih =>
+    intro port p h
+    unfold probePort at h
+    split at h
+    · split at h
+      · cases h
+      · have := ih _ _ h; omega
+    · cases h; exact Nat.le_refl _
+
+theorem simBind_np (tbl : List (Ep × String)) (np : Nat) (name : String) (ep : Ep) (h : 0 < np) :
+    0 < (simBind tbl np name ep).2.1
+    ∧ ∀ ep2, (simBind tbl np name ep).2.2 = .ok ep2 → ep2.isDefault = false := by
+  unfold simBind
+  split
+  · exact ⟨h, fun _ hh => by cases hh⟩
+  · split
+    · cases hp : probePort tbl ep.addr 65536 np with
+      | none => exact ⟨by simp only; split <;> omega, fun _ hh => by cases hh⟩
+      | some port =>
+        refine ⟨by simp only; split <;> omega, fun ep2 hh => ?_⟩
+        simp only [Except.ok.injEq] at hh; subst hh
+        have := probePort_ge tbl ep.addr _ _ _ hp
+        have hne : port ≠ 0 := by omega
+        simp [Ep.isDefault, hne]
+    · split
+      · exact ⟨h, fun _ hh => by cases hh⟩
+      · rename_i hp0 _
+        refine ⟨h, fun ep2 hh => ?_⟩
+        simp only [Except.ok.injEq] at hh; subst hh
+        simp [Ep.isDefault, hp0]
+
+theorem tcpSendPacket_reg (n : NetSt) (now : Int) (name : String) (p : Pkt) :
+    (n.tcpSendPacket now name p).1.reg = n.reg := (tcpSendPacket_sum n now name p).2.1
+
+theorem tcpClose_np (n : NetSt) (now : Int) (name : String) :
+    (n.tcpClose now name).1.reg.nextPort = n.reg.nextPort := by
+  rw [tcpClose_eq]
+  cases hs : n.tcp? name with
+  | none => rfl
+  | some s0 =>
+    simp only
+    have h1 : (tcpCloseEof n now name s0).1.reg = n.reg := by
+      unfold tcpCloseEof
+      split
+      · rfl
+      · dsimp only
+        split
+        · rw [tcpSendPacket_reg]; rfl
+        · rfl
+    unfold tcpCloseTail
+    generalize (tcpCloseEof n now name s0) = r at *
+    cases r.1.tcp? name with
+    | none => simp only; rw [h1]
+    | some s =>
+      simp only
+      cases s.fwd <;> (simp only; split <;> simp [NetSt.setFwd, NetSt.setTcp, h1])
+
+theorem tcpOpen_np (n : NetSt) (now : Int) (name : String) (v4 : Bool) :
+    (n.tcpOpen now name v4).1.reg.nextPort = n.reg.nextPort := by
+  have := tcpClose_np n now name
+  unfold NetSt.tcpOpen
+  generalize n.tcpClose now name = r at *
+  obtain ⟨n1, e⟩ := r
+  simp only at this ⊢
+  cases n1.tcp? name <;> simpa using this
+
+theorem tcpAttach_np (n : NetSt) (now : Int) (peer : String) (bindEp : Ep) (cid : Nat) :
+    (n.tcpAttach now peer bindEp cid).1.reg.nextPort = n.reg.nextPort := by
+  unfold NetSt.tcpAttach
+  cases n.tcp? peer with
+  | none => rfl
+  | some p0 =>
+    simp only
+    have := tcpOpen_np n now peer p0.isV4
+    generalize n.tcpOpen now peer p0.isV4 = r at *
+    obtain ⟨n1, e⟩ := r
+    simp only at this ⊢
+    cases n1.tcp? peer <;> cases n1.chan? cid <;> simpa using this
+
+theorem accCheckQueue_np (n : NetSt) (now : Int) (name : String) :
+    (n.accCheckQueue now name).1.reg.nextPort = n.reg.nextPort := by
+  unfold NetSt.accCheckQueue
+  cases n.tcp? name with
+  | none => rfl
+  | some s0 =>
+    simp only
+    cases s0.acc with
+    | none => rfl
+    | some a0 =>
+      simp only
+      -- the first stage keeps the registry
+      generalize hst : (if (!s0.isOpen) = true then
+          ((n.setTcp name ({ s0 with acc := some { a0 with conns := [] } } : TcpSock).abortAccept.1),
+            List.filterMap (fun c => Option.map (fun ch => NEff.forward { id := 0, ty := PType.err, ec := Ec.reset, len := 0, ovh := 28, hops := ch.hops0, src := s0.bound.toString }) (n.chan? c)) a0.conns
+              ++ ({ s0 with acc := some { a0 with conns := [] } } : TcpSock).abortAccept.2)
+        else (n, [])) = st
+      have h1 : st.1.reg = n.reg := by
+        rw [← hst]; split <;> rfl
+      obtain ⟨n1, e0⟩ := st
+      simp only at h1 ⊢
+      cases n1.tcp? name with
+      | none => simp only; rw [h1]
+      | some s =>
+        simp only
+        cases s.acc with
+        | none => simp only; rw [h1]
+        | some a =>
+          simp only
+          cases a.acceptOp with
+          | none => simp only; rw [h1]
+          | some op =>
+            cases a.conns with
+            | nil => simp only; rw [h1]
+            | cons c rest =>
+              simp only
+              split <;> (rw [tcpAttach_np]; exact congrArg Registry.nextPort h1)
+
+theorem accClose_np (n : NetSt) (now : Int) (a : String) :
+    (n.accClose now a).1.reg.nextPort = n.reg.nextPort := by
+  unfold NetSt.accClose
+  cases n.tcp? a with
+  | none => rfl
+  | some s =>
+    simp only
+    rw [accCheckQueue_np, tcpClose_np]; rfl
+
+theorem accIncoming_np (n : NetSt) (now : Int) (a : String) (pk : Pkt) :
+    (n.accIncoming now a pk).1.reg.nextPort = n.reg.nextPort := by
+  unfold NetSt.accIncoming
+  split
+  · split
+    · rw [accCheckQueue_np]; rfl
+    · rfl
+  · rfl
+  · rfl
+
+
+theorem tcpBind_np (n : NetSt) (name : String) (ep : Ep) (h : 0 < n.reg.nextPort) :
+    0 < (n.tcpBind name ep).1.reg.nextPort
+    ∧ ∀ e ∈ (n.tcpBind name ep).1.reg.tcp, e ∈ n.reg.tcp ∨ e.1.isDefault = false := by
+  unfold NetSt.tcpBind
+  cases n.tcp? name with
+  | none => exact ⟨h, fun e he => Or.inl he⟩
+  | some s =>
+    simp only
+    split
+    · exact ⟨h, fun e he => Or.inl he⟩
+    · split
+      · exact ⟨h, fun e he => Or.inl he⟩
+      · split
+        · exact ⟨h, fun e he => Or.inl he⟩
+        · cases hio : ioResolve (n.cfg.ipsOf s.node) ep with
+          | error e => exact ⟨h, fun e he => Or.inl he⟩
+          | ok ep1 =>
+            simp only
+            obtain ⟨b1, b2⟩ := simBind_sum n.reg.tcp n.reg.nextPort name ep1
+            obtain ⟨b3, b4⟩ := simBind_np n.reg.tcp n.reg.nextPort name ep1 h
+            generalize simBind n.reg.tcp n.reg.nextPort name ep1 = sb at *
+            obtain ⟨tbl, np, r⟩ := sb
+            simp only at b1 b2 b3 b4 ⊢
+            cases r with
+            | error e =>
+              have := b1 e rfl; subst this
+              exact ⟨b3, fun e he => Or.inl he⟩
+            | ok ep2 =>
+              obtain ⟨_, c2⟩ := b2 ep2 rfl
+              subst c2
+              refine ⟨b3, fun e he => ?_⟩
+              rcases List.mem_append.mp he with he | he
+              · exact Or.inl he
+              · rw [List.mem_singleton] at he; subst he; exact Or.inr (b4 ep2 rfl)
+
+theorem connBind_np (n : NetSt) (name : String) (s : TcpSock) (target : Ep) (h : 0 < n.reg.nextPort) :
+    0 < (connBind n name s target).1.reg.nextPort
+    ∧ ∀ e ∈ (connBind n name s target).1.reg.tcp, e ∈ n.reg.tcp ∨ e.1.isDefault = false := by
+  unfold connBind
+  split
+  · simp only
+    cases hio : ioResolve (n.cfg.ipsOf s.node) { addr := if target.isV4 = true then "0.0.0.0" else "::", port := 0 } with
+    | error e => exact ⟨h, fun e he => Or.inl he⟩
+    | ok ep1 =>
+      simp only
+      obtain ⟨b1, b2⟩ := simBind_sum n.reg.tcp n.reg.nextPort name ep1
+      obtain ⟨b3, b4⟩ := simBind_np n.reg.tcp n.reg.nextPort name ep1 h
+      generalize simBind n.reg.tcp n.reg.nextPort name ep1 = sb at *
+      obtain ⟨tbl, np, r⟩ := sb
+      simp only at b1 b2 b3 b4 ⊢
+      cases r with
+      | error e =>
+        have := b1 e rfl; subst this
+        exact ⟨b3, fun e he => Or.inl he⟩
+      | ok ep2 =>
+        obtain ⟨_, c2⟩ := b2 ep2 rfl
+        subst c2
+        refine ⟨b3, fun e he => ?_⟩
+        rcases List.mem_append.mp he with he | he
+        · exact Or.inl he
+        · rw [List.mem_singleton] at he; subst he; exact Or.inr (b4 ep2 rfl)
+  · exact ⟨h, fun e he => Or.inl he⟩
+
 
 end Hs
 end SimVerif
